@@ -34,6 +34,8 @@ struct Exp {
     dflt: Vec<usize>,
     need: Vec<usize>,
     custom: Vec<usize>,
+    /// two members name the same resource in conflicting ways: fetch must panic when it is present
+    self_conflict: bool,
 }
 
 fn ty(t: &T, out: &mut String, e: &mut Exp) {
@@ -118,7 +120,7 @@ impl Gen {
         writeln!(self.code, "{}pub struct F{};\nimpl Fam for F{} {{ type D<'a> = {}; }}", prelude, id, id, type_expr).unwrap();
         writeln!(
             self.table,
-            "    Case {{ group: {:?}, name: {:?}, reads: {}, writes: {}, opt: {}, dflt: {}, need: {}, custom: {}, nres: {}, run: run::<F{}> }},",
+            "    Case {{ group: {:?}, name: {:?}, reads: {}, writes: {}, opt: {}, dflt: {}, need: {}, custom: {}, self_conflict: {}, nres: {}, run: run::<F{}> }},",
             group,
             type_expr,
             arr(&e.reads),
@@ -127,6 +129,7 @@ impl Gen {
             arr(&e.dflt),
             arr(&e.need),
             arr(&e.custom),
+            e.self_conflict,
             nres,
             id
         )
@@ -334,6 +337,37 @@ fn generate(full: bool) -> String {
         sid += 1;
         let prelude2 = format!("#[derive(SystemData)]\n#[allow(dead_code)]\npub struct {n2}<'a>(({n}<'a, 'static, R<0>>, {c}), ());\n", n2 = name2, n = name, c = s2);
         g.case("derive-nested", &format!("{}<'a>", name2), &e2, 3, &prelude2);
+    }
+    // (v) self-conflicting compositions: two members name the same resource, at least one of them for
+    //     writing; whatever the forms (plain, Expect, Option) and wherever they sit, the composite cannot hold
+    //     what it declares, so fetching it must panic whenever the resource is present
+    {
+        let acc_kinds = [K::Read, K::Write, K::ReadExpect, K::WriteExpect, K::OptRead, K::OptWrite];
+        let is_w = |k: K| matches!(k, K::Write | K::WriteExpect | K::OptWrite);
+        for k1 in acc_kinds {
+            for k2 in acc_kinds {
+                if !(is_w(k1) || is_w(k2)) {
+                    continue;
+                }
+                if !full && !(matches!(k1, K::Read | K::Write | K::OptWrite) && matches!(k2, K::Read | K::Write | K::OptRead | K::OptWrite)) {
+                    continue;
+                }
+                for shape in 0..3 {
+                    let a = T::Leaf(k1, 0);
+                    let b = T::Leaf(k2, 0);
+                    let t = match shape {
+                        0 => T::Tup(vec![a, b]),
+                        1 => T::Tup(vec![a, T::Leaf(K::Read, 1), b]),
+                        _ => T::Tup(vec![T::Tup(vec![a, T::Leaf(K::Read, 1)]), T::Tup(vec![T::Leaf(K::Unit, 0), T::Tup(vec![b])])]),
+                    };
+                    let mut sx = String::new();
+                    let mut e = Exp::default();
+                    ty(&t, &mut sx, &mut e);
+                    e.self_conflict = true;
+                    g.case("self-conflicting", &sx, &e, 2, "");
+                }
+            }
+        }
     }
     // (iv-b) derived structs that are generic over one of their members: the member's type is a bare
     // type parameter (it never mentions the fetch lifetime textually), bound in the generics, in a
